@@ -535,4 +535,6 @@ def units(tier):
     ] + _composition_units() + [
         bounded_unit("C01/assign_optimal_throughput/feasibility", "c01_optimal", [(AS, "ArchSemantics.assign_optimal_throughput")],
                      extra_args=["c01"], timeout=1500),
+        bounded_unit("C01/synthetic-model-files-through-the-pipeline", "c01_models", [(AS, "ArchSemantics.assign_optimal_throughput"), (AS, "ArchSemantics.assign_tp_lt"),
+                     (HW, "MachineModel.average_port_pressure"), (HW, "MachineModel.__init__")], timeout=1500),
     ]
